@@ -295,6 +295,33 @@ def run_scenario(scenario: dict, horizon: float = 90.0) -> Run:
                     run.exclusions.add('kill')
                     w.run_for(0.25)
                     op = new_op()
+            elif kind_a == 'foreign_burst':
+                # an essential edit, and `count` foreign NON-essential writes that land right before the operator's n-th own
+                # PATCH of this object is applied: their watch events arrive between the operator's write and its echo
+                # (several stale views in a row while the worker waits for the version of its own patch)
+                target = {'n': a.get('nth', 1), 'inc': op, 'done': False}
+                prev_hook = api.on_request
+
+                def on_burst(req: fakeapi.Request, target: dict = target, count: int = a.get('count', 2), name: str = obj) -> None:
+                    if (req.method == 'PATCH' and req.actor == target['inc'].session.actor and not target['done']
+                            and name in req.path.split('/')):
+                        target['n'] -= 1
+                        if target['n'] <= 0:
+                            target['done'] = True
+                            for k in range(count):
+                                if api.get(kind, 'ns1', name) is not None:
+                                    api.merge_edit(kind, 'ns1', name, {'status': {'external': 1000 + k}})
+
+                def both_burst(req: fakeapi.Request, f1: Any = on_burst, f2: Any = prev_hook) -> None:
+                    f1(req)
+                    if f2 is not None:
+                        f2(req)
+                api.on_request = both_burst
+                if api.get(kind, 'ns1', obj) is not None:
+                    api.merge_edit(kind, 'ns1', obj, {'spec': a['patch']})
+                w.loop.run_until_fine(lambda: target['done'], w.now + 3)
+                api.on_request = prev_hook
+                target['done'] = True
             elif kind_a == 'race_edit':
                 # an external edit whose watch event is in flight while a timer of the operator (idle worker timeout,
                 # retry sleep, consistency deadline, ...) fires: edit now, let the delivery advance `hops` loop
